@@ -1783,12 +1783,214 @@ def r03_11(ctx, counts) -> RuleResult:
     return res
 
 
+def r03_12(ctx, counts) -> RuleResult:
+    """nud/led return a token on every path"""
+    res = RuleResult(
+        'R03.12', 'NUD-LED-RETURN-TOKEN',
+        'The Pratt loop stores what nud()/led() return as the operand of the enclosing token: '
+        '`self[:] = left, self.parser.expression(rbp)`. A nud/led that reaches a bare `return`, '
+        '`return None`, or the end of its body hands None to the parent, whose next attribute '
+        'access (`self[1].name`) raises AttributeError during parsing. Every function bound to a '
+        'nud or led slot through the registration DSL returns a non-None expression on every '
+        'normal path (paths that end in `raise` are not concerned).')
+    reg = ctx.reg
+    funcs: dict[FuncInfo, set[str]] = {}
+    for rec in reg.all_records():
+        for slot in ('nud', 'led'):
+            ref = rec.method(slot)
+            if ref is not None and ref.func is not None and ref.origin != 'class':
+                funcs.setdefault(ref.func, set()).add(f'{slot} {rec.symbol}')
+    model: Model = ctx.model
+    for c in model.all_classes():
+        if c.module.name.startswith('elementpath.xpath_tokens') or c.module.name == 'elementpath.tdop':
+            for slot in ('nud', 'led'):
+                m = c.methods.get(slot)
+                if m is not None:
+                    funcs.setdefault(m, set()).add(f'{slot} of class {c.name}')
+    if len(funcs) < 40:
+        raise AnalysisError(f'only {len(funcs)} nud/led functions located')
+    n = 0
+    for f, what in sorted(funcs.items(), key=lambda kv: kv[0].key):
+        n += 1
+        cfg = CFG(f.node)
+        bad = []
+        for nd in cfg.nodes:
+            if nd.kind == 'stmt' and isinstance(nd.ast, ast.Return):
+                v = nd.ast.value
+                if v is None or (isinstance(v, ast.Constant) and v.value is None):
+                    bad.append(nd.ast)
+        # falling off the end: a predecessor of the exit that is neither return nor raise
+        for lb, p in cfg.exit.preds:
+            if p.kind == 'stmt' and isinstance(p.ast, (ast.Return, ast.Raise)):
+                continue
+            if p is cfg.entry and not f.node.body:
+                continue
+            if p.ast is not None and not isinstance(p.ast, (ast.Return, ast.Raise)):
+                bad.append(p.ast)
+        if not bad:
+            res.ok()
+        else:
+            res.instances.append(f'{f.key} [{sorted(what)[0]}]: {len(bad)} path(s) return None')
+            res.fail(finding('R03.12', f, bad[0], 'returns None',
+                             f'{f.name} ({", ".join(sorted(what))[:60]}) can return None '
+                             f'(`{stmt_text(bad[0])[:40]}`): the parent token stores it as an '
+                             f'operand and the next attribute access raises AttributeError '
+                             f'("a" => xs:NOTATION())'))
+    res.instances.append(f'{n} nud/led functions examined')
+    counts['nud_led_functions'] = n
+    return res
+
+
+def r03_13(ctx, counts) -> RuleResult:
+    """set operators: node check before hashing"""
+    from ..engine.dataflow import branch_facts
+    res = RuleResult(
+        'R03.13', 'SETOP-NODE-CHECK-BEFORE-HASHING',
+        'The operands of |, union, intersect and except may be any sequence; maps, arrays and '
+        'function items are not hashable. In the select functions bound to those operators no '
+        'result of an operand enters a set — set(…), a set comprehension, or .add(x) — before it '
+        'is established to be an XPathNode (branch fact at the .add; a set built directly from '
+        'the operand\'s select cannot have been checked). Otherwise `. | abs#1` raises a bare '
+        'TypeError instead of XPTY0004.')
+    funcs: dict[FuncInfo, set[str]] = {}
+    for rec in ctx.reg.all_records():
+        if rec.symbol in ('|', 'union', 'intersect', 'except'):
+            ref = rec.method('select')
+            if ref is not None and ref.func is not None and ref.origin != 'class':
+                funcs.setdefault(ref.func, set()).add(rec.symbol)
+    if len(funcs) < 2:
+        raise AnalysisError(f'set operator functions located: {len(funcs)} < 2')
+    n = 0
+    for f, syms in sorted(funcs.items(), key=lambda kv: kv[0].key):
+        cfg = CFG(f.node)
+        facts = branch_facts(cfg)
+
+        def from_select(e: ast.AST) -> bool:
+            return any(isinstance(c, ast.Call) and isinstance(c.func, ast.Attribute)
+                       and c.func.attr in ('select', 'evaluate') for c in ast.walk(e))
+        for x in walk_local(f.node):
+            if isinstance(x, ast.SetComp) and any(from_select(g.iter) for g in x.generators) or \
+                    isinstance(x, ast.Call) and dotted(x.func) in ('set', 'frozenset') and x.args \
+                    and from_select(x.args[0]):
+                n += 1
+                res.instances.append(f'{f.key} [{"/".join(sorted(syms))}]: `{stmt_text(x)[:50]}` '
+                                     f'hashes unchecked operand results')
+                res.fail(finding('R03.13', f, x, 'operand results hashed unchecked',
+                                 f'`{stmt_text(x)[:60]}` puts the results of an operand into a '
+                                 f'set before the node check: an array, map or function item '
+                                 f'raises a bare TypeError (unhashable) instead of XPTY0004'))
+        for nd in cfg.nodes:
+            a = nd.ast
+            if nd.kind == 'stmt' and isinstance(a, ast.Expr) and isinstance(a.value, ast.Call) \
+                    and isinstance(a.value.func, ast.Attribute) and a.value.func.attr == 'add' \
+                    and a.value.args and isinstance(a.value.args[0], ast.Name):
+                v = a.value.args[0].id
+                n += 1
+                ok = f'+isinstance({v}, XPathNode)' in facts[nd.id]
+                res.instances.append(f'{f.key} [{"/".join(sorted(syms))}]: `{stmt_text(a)}` after '
+                                     f'the node check={ok}')
+                if ok:
+                    res.ok()
+                else:
+                    res.fail(finding('R03.13', f, a, f'{v} added unchecked',
+                                     f'`{stmt_text(a)}` hashes `{v}` on a path on which it is not '
+                                     f'established to be an XPathNode'))
+    counts['setop_hash_sites'] = n
+    if n < 2:
+        raise AnalysisError(f'only {n} hashing sites located in the set operators')
+    return res
+
+
+def r03_14(ctx, counts) -> RuleResult:
+    """decimal.Decimal(text) raises InvalidOperation, which is not a ValueError"""
+    model: Model = ctx.model
+    res = RuleResult(
+        'R03.14', 'DECIMAL-TEXT-CONVERSION',
+        'decimal.Decimal("x") raises decimal.InvalidOperation — an ArithmeticError, not a '
+        'ValueError — while int("x") and float("x") raise ValueError. The evaluation layers '
+        'convert ValueError into FORG0001/FOCA0002. (a) A try whose handlers name ValueError and '
+        'whose body constructs a Decimal from a non-literal argument also names '
+        'InvalidOperation, DecimalException or ArithmeticError. (b) In UntypedAtomic._operator '
+        '(the conversion of an untyped value to the type of the other operand of a comparison, '
+        'whose callers convert ValueError) a constructor chosen at run time — `type(other)(text)` '
+        '— can be Decimal, so it sits in a try that turns ArithmeticError into ValueError. '
+        'Otherwise `<b>x</b> = 2.5` escapes as a bare decimal.InvalidOperation.')
+    n = 0
+    arith = {'InvalidOperation', 'DecimalException', 'ArithmeticError', 'Exception', 'BaseException'}
+    for f in sorted(model.all_functions(), key=lambda q: q.key):
+        if not f.module.name.startswith('elementpath.') or f.module.name.startswith('elementpath.regex'):
+            continue
+        for tr in [x for x in walk_local(f.node) if isinstance(x, ast.Try)]:
+            names = set()
+            for h in tr.handlers:
+                names |= {nm.split('.')[-1] for nm in handler_names(model, f.module, h)}
+            if 'ValueError' not in names:
+                continue
+            decs = [c for st in tr.body for c in ast.walk(st) if isinstance(c, ast.Call)
+                    and dotted(c.func).split('.')[-1] == 'Decimal' and c.args
+                    and not isinstance(c.args[0], ast.Constant)
+                    and not (isinstance(c.args[0], ast.Call)
+                             and dotted(c.args[0].func) in ('int', 'len', 'round'))]
+            # Decimal(<int>) cannot fail: drop calls whose argument an enclosing test
+            # establishes to be an int
+            emap_f = enclosing_map(f.node)
+            decs = [c for c in decs if not (isinstance(c.args[0], ast.Name) and any(
+                isinstance(enc, ast.If) and any(
+                    isinstance(t, ast.Call) and dotted(t.func) == 'isinstance' and len(t.args) == 2
+                    and stmt_text(t.args[0]) == c.args[0].id and stmt_text(t.args[1]) == 'int'
+                    for t in ast.walk(enc.test)) for enc in emap_f[id(c)]))]
+            if not decs:
+                continue
+            n += 1
+            ok = bool(names & arith)
+            res.instances.append(f'{f.key}: try at L{tr.lineno} converts ValueError and builds '
+                                 f'`{stmt_text(decs[0])[:40]}`; covers InvalidOperation={ok}')
+            if ok:
+                res.ok()
+            else:
+                res.fail(finding('R03.14', f, decs[0], 'Decimal(text) under ValueError only',
+                                 f'`{stmt_text(decs[0])[:50]}` sits in a try that handles '
+                                 f'{sorted(names)} but not decimal.InvalidOperation: malformed '
+                                 f'text escapes as a bare decimal error'))
+    cls = model.find_class('UntypedAtomic')
+    op = cls.methods.get('_operator')
+    if op is None:
+        raise AnalysisError('UntypedAtomic._operator vanished')
+    emap = enclosing_map(op.node)
+    for c in walk_local(op.node):
+        if isinstance(c, ast.Call) and isinstance(c.func, ast.Call) \
+                and dotted(c.func.func) == 'type' and c.args:
+            n += 1
+            covered = False
+            for enc in emap[id(c)]:
+                if isinstance(enc, ast.Try) and any(any(y is c for y in ast.walk(b))
+                                                    for b in enc.body):
+                    for h in enc.handlers:
+                        if {nm.split('.')[-1] for nm in handler_names(model, op.module, h)} & arith:
+                            covered = True
+            res.instances.append(f'{op.key}: `{stmt_text(c)[:40]}` (constructor chosen at run '
+                                 f'time) under an ArithmeticError handler={covered}')
+            if covered:
+                res.ok()
+            else:
+                res.fail(finding('R03.14', op, c, 'type(other)(text) may be Decimal',
+                                 f'`{stmt_text(c)[:50]}` builds a value of the class of the other '
+                                 f'operand from the untyped text; for a decimal operand that is '
+                                 f'Decimal("x"), whose InvalidOperation is not the ValueError the '
+                                 f'callers convert: `<b>x</b> = 2.5` raises a bare decimal error'))
+    counts['decimal_text_conversions'] = n
+    if n < 1:
+        raise AnalysisError('no Decimal-from-text conversion located')
+    return res
+
+
 def run(ctx) -> dict:
     counts: dict[str, int] = {}
     results = [r03_1(ctx, counts), r03_2(ctx, counts), r03_3(ctx, counts), r03_4(ctx, counts),
                r03_5(ctx, counts), r03_6(ctx, counts), r03_7(ctx, counts),
                r03_8(ctx, counts), r03_9(ctx, counts), r03_10(ctx, counts),
-               r03_11(ctx, counts)]
+               r03_11(ctx, counts), r03_12(ctx, counts), r03_13(ctx, counts),
+               r03_14(ctx, counts)]
     # "no call hangs": the lock discipline of C19 is a necessary condition (a lock left held on
     # an error path blocks every later evaluation that needs it)
     from . import c19_global
